@@ -12,7 +12,7 @@ for d in sorted(glob.glob('/verif/seeded/benign/C*-*/')):
     rows.append((n, m.get('check_verdicts', ''), what))
 head = '''# Behaviour-preserving changes (written by independent sub-agents) run through the checks
 
-Each patch keeps the property it was written for; `tools/benigncheck.sh` applied it in a scratch worktree, confirmed build + repository tests, and ran the quick check of that property and of every property anchored in a touched directory. Expected verdict: QUIET everywhere. Names `<ID>-<letter>` are round 1, `<ID>-r2<letter>` round 2 (bolder: API extensions, behaviour changes outside the property, restructured goroutines/locks/types), `<ID>-r3…` round 3 (C17/C18 only: restructured concurrency, shutdown and I/O plumbing), `<ID>-r4<letter>` round 4 (a = wholesale rewrite of a function onto library helpers, b = change in a dependency / shared helper, c = error-path or validation change outside the property), `<ID>-r5<k><letter>` round 5 (the same three kinds, aimed at the code the round-9 obligations look at). The verdicts recorded are those of the final machinery; which first runs were alarms, and why, is in DESIGN.md section 11.
+Each patch keeps the property it was written for; `tools/benigncheck.sh` applied it in a scratch worktree, confirmed build + repository tests, and ran the quick check of that property and of every property anchored in a touched directory. Expected verdict: QUIET everywhere. Names `<ID>-<letter>` are round 1, `<ID>-r2<letter>` round 2 (bolder: API extensions, behaviour changes outside the property, restructured goroutines/locks/types), `<ID>-r3…` round 3 (C17/C18 only: restructured concurrency, shutdown and I/O plumbing), `<ID>-r4<letter>` round 4 (a = wholesale rewrite of a function onto library helpers, b = change in a dependency / shared helper, c = error-path or validation change outside the property), `<ID>-r5<k><letter>` round 5 (the same three kinds, aimed at the code the round-9 obligations look at), `<ID>-r6<k><letter>` round 6 (likewise for the round-10 obligations). The verdicts recorded are those of the final machinery; which first runs were alarms, and why, is in DESIGN.md section 11.
 
 | change | verdicts | what it does |
 |---|---|---|
